@@ -11,7 +11,7 @@ LEVELS = {
  "C09": "other",
  "C10": "other",
  "C11": "exploration",
- "C12": "proof",
+ "C12": "other",
  "C13": "proof",
  "C14": "other",
  "C15": "proof",
